@@ -278,6 +278,30 @@ def r2_ordinal(ctx, cfg='A'):
     ctx.floor('dispatch steps that run a handler', n_h, 1)
 
 
+def _none_iff_empty(ctx, P, cfg):
+    """FutureEventSet::fetch_next returning Option: None on exactly the paths that observed the set empty"""
+    ff = P.fns.get(_fes(cfg) + '::fetch_next')
+    if ff is None:
+        return False
+    n_none = 0
+    for path, outcome, decs in fn_paths(ctx, ff):
+        if outcome != 'return':
+            continue
+        r = path_ret_resolved(ff, path)
+        r = peel(r) if r is not None else ('unknown',)
+        if r[0] != 'agg' or not str(r[1]).startswith('adt:std::option::Option::'):
+            return False
+        empt = [a for _, a in path_atoms(ff, path, decs) if a[0] == 'bool' and a[1][0] == 'call' and str(a[1][1]).endswith('::is_empty')]
+        saw_empty = any(a[2] is True for a in empt)
+        if str(r[1]).endswith('::None'):
+            n_none += 1
+            if not saw_empty:
+                return False
+        elif saw_empty:
+            return False
+    return n_none >= 1
+
+
 def r3_finish(ctx, cfg='A'):
     ctx.set_rule('C11.R3', cfg)
     P = ctx.progs[cfg]
@@ -373,6 +397,13 @@ def r3_finish(ctx, cfg='A'):
             i_last = max([i for i, e in enumerate(effs_) if e[0] == 'c' and e[1].b == last_true_site.b and e[1].name == last_true_site.name] or [-1])
             if i_last < i_end[-1]:
                 last = 'stale'   # the emptiness test predates at_sim_end
+        if last is not True:
+            # the emptiness test lives in the event set: `while let Some(frame) = set.fetch_next()` — a None from fetch_next is the
+            # observation, provided fetch_next answers None exactly when it found the set empty
+            fouts = call_outcomes(f, path, decs, _fes(cfg) + '::fetch_next')
+            if fouts and fouts[-1][1] == 'None' and _none_iff_empty(ctx, P, cfg):
+                i_last = max([i for i, e in enumerate(effs_) if e[0] == 'c' and e[1].b == fouts[-1][0].b and e[1].name == fouts[-1][0].name] or [-1])
+                last = True if (not i_end or i_last > i_end[-1]) else 'stale'
         if any(s.b in path for s in drains):
             last = True   # the drain call returns only once the closure has seen the set empty
         if last is not True:
